@@ -6,7 +6,9 @@ import glob, json, os, subprocess, sys, tempfile, xml.etree.ElementTree as ET
 d = sys.argv[1] if len(sys.argv) > 1 and not sys.argv[1].startswith("-") else "/repo"
 n = int(sys.argv[sys.argv.index("-n") + 1]) if "-n" in sys.argv else 12
 base = json.load(open("/root/.vp/BASELINE.json"))
-stable = set(base["stable_pass"])
+def norm(x):
+    return x[len("qutip.tests."):] if x.startswith("qutip.tests.") else x
+stable = set(norm(x) for x in base["stable_pass"])
 files = sorted(glob.glob(os.path.join(d, "qutip/tests/**/test_*.py"), recursive=True))
 # weight = number of stable tests in the file's module
 def modname(f):
@@ -19,7 +21,8 @@ for s in stable:
 weights = {}
 for f in files:
     mn = modname(f)
-    weights[f] = sum(1 for s in stable if s.startswith(mn + ".") or s.startswith(mn + "::")) + 1
+    mnn = norm(mn)
+    weights[f] = sum(1 for s in stable if s.startswith(mnn + ".") or s.startswith(mnn + "::")) + 1
 shards = [[] for _ in range(n)]
 load = [0] * n
 for f in sorted(files, key=lambda f: -weights[f]):
@@ -45,11 +48,12 @@ for xml, p in procs:
     try:
         for tc in ET.parse(xml).getroot().iter("testcase"):
             if not any(c.tag in ("failure", "error", "skipped") for c in tc):
-                passed.add(f"{tc.get('classname')}::{tc.get('name')}")
+                passed.add(norm(f"{tc.get('classname')}::{tc.get('name')}"))
     except Exception as ex:
         print("shard failed:", xml, ex, open(xml.replace(".xml", ".log")).read()[-500:])
 missing = sorted(stable - passed)
 print(f"stable_pass={len(stable)} passed_now={len(passed)} missing={len(missing)}")
+print("sample passed:", sorted(passed)[:3])
 for m in missing[:40]:
     print("  NOT PASSING:", m)
 sys.exit(1 if missing else 0)
